@@ -252,7 +252,7 @@ static void fn_collect(const char *s, int n) { if (strstr(s, "..")) return; if (
 static void pairs_job(int d)
 {
 	const char *dom = PAIR_DOMAINS[d]; int dl = strlen(dom);
-	int p1 = thorough ? 5 : 4, p2 = thorough ? 6 : 5;
+	int p1 = 4, p2 = thorough ? 6 : 5;
 	npnames = 0;
 	for (int n = 0; n <= p2; n++) for (int f = 0; f < 7; f++) enum_strings(n, f, fn_collect);
 	long firsts = 0;
